@@ -6,7 +6,8 @@ from jast import unity_source, clang_flags, ExtractionError, norm_type
 
 
 class Consts:
-    def __init__(self, tu, wd):
+    def __init__(self, tu, wd, extra_flags=(), tag=""):
+        self.extra_flags, self.tag = list(extra_flags), tag
         self.tu = tu
         self.em = cxx2c.Emitter(tu, wd)
         self.wd = wd
@@ -54,10 +55,10 @@ class Consts:
                 src += "  jpv_dump(\"%s\", %s);\n" % (qn, qn)
             ok.append(qn)
         src += "  return 0; }\n"
-        p = os.path.join(self.wd, "constdump_all.cpp")
+        p = os.path.join(self.wd, "constdump_all%s.cpp" % self.tag)
         open(p, "w").write(src)
-        exe = os.path.join(self.wd, "constdump_all")
-        r = subprocess.run(["clang++"] + clang_flags() + ["-O0", "-w", p, "-o", exe], capture_output=True, text=True)
+        exe = os.path.join(self.wd, "constdump_all" + self.tag)
+        r = subprocess.run(["clang++"] + clang_flags() + self.extra_flags + ["-O0", "-w", p, "-o", exe], capture_output=True, text=True)
         if r.returncode != 0:
             # drop the offending names and retry once per error line
             bad = set(re.findall(r"jpv_dump\(\"([^\"]+)\"", "\n".join(l for l in r.stderr.splitlines() if "jpv_dump" in l)))
